@@ -20,10 +20,11 @@ run with the regenerated `closeUnlinks`), then the race of two writers decided b
   count from 0 in the order of opening), `c<k>` (handle k is closed), `r<k>` (handle k runs a read cycle:
   `RLock … RUnlock`), `w<k>.<data>` (handle k opens the ring for writing and adds a key: two `Lock … Unlock` cycles)
 * then handles s and u (both open) each hold a fresh snapshot of the ring; s starts `AddKey(dataS)` and is held
-  between its `Get` and its `Put`; u starts `AddKey(dataU)`.
+  between its `Get` and its `Put`; u starts `AddKey(dataU)`. Data 0 makes the handle a *reader* instead (`OpenKeyRing`:
+  `RLock, Get, RUnlock`; s is then held before its `Get`).
 Result: `ino <inode class of every handle, in order of first appearance> ring <ring before the race> overlap=<0|1>
-res <s's outcomes> <u's outcomes> final <ring>` – overlap=1: u's descriptor is on another inode than s's, its
-`flock` does not wait. `BLOCKED <token>` when a step of the sequential history could not take its lock.
+res <s's outcomes> <u's outcomes> final <ring>` – overlap=1: u's `flock` does not wait for s's (another inode, or
+shared next to shared). `BLOCKED <token>` when a step of the sequential history could not take its lock.
 `C17.locklifeP …` is the same op with every handle in its own operating-system process on the implementation side.
 -/
 namespace Driver.C17
@@ -177,25 +178,31 @@ def lockLife (hist : String) (sa ua : String) : Option String := do
     match (lockCycle cu ls s .ex).bind fun l => lockCycle cu l u .ex with
     | none => pure s!"BLOCKED open"
     | some ls =>
-      -- s takes the exclusive lock and is held; u asks for it
-      let l1 := lstep cu (lstep cu ls (.enter s .ex)) (.acquire s)
-      let l2 := lstep cu (lstep cu l1 (.enter u .ex)) (.acquire u)
-      if (l2.h s).held ≠ some .ex then pure s!"BLOCKED race" else
-      let overlap := (l2.h u).held = some .ex
-      -- the writers themselves: the concurrency model, threads 0 (= s) and 1 (= u)
+      -- data 0 = a reader (shared lock, `Op.refresh`), otherwise `AddKey` of that key (exclusive lock)
+      let mS : Mode := if dS = 0 then .sh else .ex
+      let mU : Mode := if dU = 0 then .sh else .ex
+      let opOf (d : Nat) : Op := if d = 0 then .refresh else .addKey d
+      -- s takes its lock and is held; u asks for its own
+      let l1 := lstep cu (lstep cu ls (.enter s mS)) (.acquire s)
+      let l2 := lstep cu (lstep cu l1 (.enter u mU)) (.acquire u)
+      if (l2.h s).held ≠ some mS then pure s!"BLOCKED race" else
+      let overlap := (l2.h u).held = some mU
+      -- the two operations themselves: the concurrency model, threads 0 (= s) and 1 (= u)
       let dummy : Handle := ⟨0, emptyRing, [], [], [], .idle⟩
       let c0 : St := { cur := fun _ => ring, new := fun _ => none, writer := none, readers := [],
-                       h := fun i => if i = 0 then ⟨0, ring, [], [.addKey dS], [], .idle⟩
-                                     else if i = 1 then ⟨0, ring, [], [.addKey dU], [], .idle⟩ else dummy,
+                       h := fun i => if i = 0 then ⟨0, ring, [], [opOf dS], [], .idle⟩
+                                     else if i = 1 then ⟨0, ring, [], [opOf dU], [], .idle⟩ else dummy,
                        commits := [] }
-      let c1 := step (step c0 0) 0     -- s: Lock, Get – held before its Put
+      -- s up to where it is held: a writer `Lock, Get` (before its Put), a reader `RLock` (before its Get)
+      let c1 := if dS = 0 then step c0 0 else step (step c0 0) 0
       let c2 :=
         if overlap then
-          -- u's descriptor refers to another inode: s's flock does not make it wait
-          let c := (List.replicate 5 1).foldl step { c1 with writer := none }
-          { c with writer := some 0 }
+          -- the life-cycle model lets u's flock through (another inode, or shared next to shared): u runs to
+          -- its end as if the lock were free, then s's hold is restored
+          let c := (List.replicate 5 1).foldl step { c1 with writer := none, readers := [] }
+          { c with writer := c1.writer, readers := c1.readers }
         else step c1 1                  -- u waits
-      let c3 := (List.replicate 3 0).foldl step c2   -- s: Put, Rename, Unlock
+      let c3 := (List.replicate 3 0).foldl step c2   -- s: (Put, Rename,) Unlock / Get, RUnlock
       let c4 := (List.replicate 5 1).foldl step c3   -- u: whatever it has left
       pure s!"ino {inoS} ring {showRing ring} overlap={if overlap then 1 else 0} res {showRes (c4.h 0)} {showRes (c4.h 1)} final {showRing (c4.cur 0)}"
 
